@@ -70,9 +70,11 @@ Definition inst_healthy (status : list str) (strict : bool) (checks : list hchec
 Definition advertises_intent (env : env_t) (prefix : str) (r : rentry) (i : intent) : Prop :=
   In i (intents env prefix (r_reg r)).
 
-(* the command build keeps for the intent: it validates *)
+(* the command build keeps for the intent: it validates (one line, no double quote in the tags
+   or options, reads back as one definition with the registered service / route / destination,
+   and route.NewTable accepts it on its own: C14's [validate_intent], /repo d16ce3d + 9891ca3) *)
 Definition emitted (pw : str -> outcome wt) (canon : str -> option str) (gl : str -> bool) (i : intent) : Prop :=
-  validate pw canon gl (render_intent i) = true.
+  validate_intent pw canon gl i = true.
 
 (* the table has the target a parsed 'route add' definition stands for *)
 Definition def_target (canon : str -> option str) (t : table) (d : def) : Prop :=
